@@ -2,6 +2,7 @@
 instrumented tracers and recorded (never slept) sleeps.   usage: retry.py SCENARIOS.json TRACES.json"""
 import asyncio
 import json
+import zlib
 import logging
 import sys
 import types
@@ -36,6 +37,8 @@ class VerifBaseExc(BaseException):
 
 EXC = {'exc_listed': ConnErr, 'exc_sub': SubConnErr, 'exc_listed2': TimeoutErr, 'exc_unlisted': OtherErr,
        'base_exc': VerifBaseExc, 'cancelled': asyncio.CancelledError}
+# "base_exc" stands for any exception outside the Exception hierarchy: which one is chosen by the content of the scenario
+BASE_CLASSES = [VerifBaseExc, KeyboardInterrupt, SystemExit]
 CODES = {'err_listed': 2001, 'err_listed2': -32000, 'err_unlisted': 7}
 
 
@@ -73,7 +76,7 @@ def serve(st, text, is_notification):
         doc, doc_ok = None, False
     st.ev.append({'ev': 'Send', 'o': o, 'n': st.n, 'notif': bool(is_notification), 'doc_ok': doc_ok})
     if o in EXC:
-        st.raised = EXC[o]('scripted ' + o)
+        st.raised = (st.base_cls if o == 'base_exc' else EXC[o])('scripted ' + o)
         raise st.raised
     if o == 'undecodable':
         return 'this is { not json'
@@ -159,6 +162,8 @@ def classify_response(resp):
 
 
 def classify_exc(e):
+    if type(e) in BASE_CLASSES:
+        return 'base_exc'
     for k, c in EXC.items():
         if type(e) is c:
             return k
@@ -175,13 +180,14 @@ def run(scn, loop):
     cfg = scn['cfg']
     st = State(scn)
     is_async = cfg['kind'] == 'async'
+    hb = zlib.crc32(json.dumps(dict(scn, cfg={k: v for k, v in cfg.items() if k != 'kind'}), sort_keys=True).encode())
+    st.base_cls = BASE_CLASSES[hb % 3]         # the same choice for both halves
     retry_mod.time = types.SimpleNamespace(sleep=lambda d: st.ev.append({'ev': 'Sleep', 'd': a_delay(d)}))
 
     async def fake_sleep(d):
         st.ev.append({'ev': 'Sleep', 'd': a_delay(d)})
     retry_mod.asyncio = types.SimpleNamespace(sleep=fake_sleep)
 
-    import zlib
     hh = zlib.crc32(json.dumps({k: v for k, v in cfg.items() if k != 'kind'}, sort_keys=True).encode())   # the same for both halves
     tracers = [make_tracer(st, i + 1, logging_base=((hh // 2 + i) % 2 == 1)) for i in range(cfg['tracers'])]
     if is_async:
@@ -206,7 +212,6 @@ def run(scn, loop):
     else:
         st.request = pjrpc.Request('m', [1], id=None if cfg['req'] == 'notification' else 1)
         call = lambda: client.send(st.request, **kwargs)          # noqa: E731
-    import zlib
     in_handler = zlib.crc32(json.dumps({k: v for k, v in cfg.items() if k != 'kind'}, sort_keys=True).encode()) % 2 == 1   # by content (the same for both halves)
     for rnd in range(cfg.get('rounds', 1)):
         if rnd and cfg.get('perreq2', cfg['perreq']) != cfg['perreq']:
